@@ -96,11 +96,13 @@ class StepPriority(Enum):
             return cls.HELD
         if _priority == "minimal":
             return cls.MINIMAL
+        if _priority == "low":
+            return cls.LOW
         if _priority == "medium":
             return cls.MEDIUM
         if _priority == "high":
             return cls.HIGH
-        if _priority == "expedite":
+        if _priority in ("expedite", "expedited"):
             return cls.EXPEDITE
 
         raise ValueError(f"Priority '{priority}' not valid.")
